@@ -142,6 +142,11 @@ func basicVerdict(e *vrt.Exec) (rule, msg string) {
 		if libPanic(p) {
 			return "panic", fmt.Sprintf("corebgp panicked in %s: %s\n%s", p.G, p.Value, trimStack(p.Stack))
 		}
+		if strings.HasPrefix(p.Value, "harness: ") && strings.Contains(p.Stack, "AddPeer") {
+			// the scenario's own, valid peer configuration was refused by AddPeer (never on the tree the
+			// scenarios were written for): the session the property talks about cannot even be set up
+			return "usable-config-rejected", "AddPeer refused a configuration this scenario needs and that can yield a valid session: " + strings.TrimPrefix(p.Value, "harness: ")
+		}
 		panic("ENGINE-ERROR harness panic in " + p.G + ": " + p.Value + "\n" + p.Stack)
 	}
 	if e.Reason() == vrt.EndTruncated {
